@@ -45,7 +45,9 @@ Closed(e, kind, t) ==
   /\ closedAt' = [closedAt EXCEPT ![e] = IF @ = None THEN t ELSE @]
   \* "delivered again for long enough": an idle timeout (justified above) that falls due less than one backed-off probe
   \* timeout after the network healed ends the connection before anybody had to send; that is not a liveness failure
-  /\ hx' = [hx EXCEPT !.excused = @ \/ (kind = "idle" /\ lastRx[e] <= hx.heal /\ t <= hx.heal + Max2(pto["c"], pto["s"]) + Slack)]
+  \* the same holds for the handshake deadline (a configured limit, 10 s by default) when the network healed less than one
+  \* probe timeout before it
+  /\ hx' = [hx EXCEPT !.excused = @ \/ (kind \in {"idle", "handshake_duration"} /\ lastRx[e] <= hx.heal /\ t <= hx.heal + Max2(pto["c"], pto["s"]) + Slack)]
   /\ UNCHANGED <<mode, idleT, lastRx, lastTx, pto, sendOpen, mustEos, mustDone, failed>>
 
 SendCall(e, id) == sendOpen' = sendOpen \cup {<<e, id>>} /\ UNCHANGED <<mode, idleT, lastRx, lastTx, pto, closedAt, mustEos, mustDone, failed, hx>>
